@@ -127,6 +127,15 @@ FLOAT_GRID = [0.0, -0.0, 1.0, -1.0, 0.5, 2.0, 3.0, -2.5, 1e308, -1e308, 5e-324, 
               -math.inf, math.nan, 0.1, 0.2, 1e16, 123456.789, -7.0]
 
 
+class AnyOf:
+    """any of several outcomes is acceptable (the property PERMITS, but does not require, one of them)"""
+    def __init__(self, *alts):
+        self.alts = alts
+
+    def __repr__(self):
+        return "AnyOf(" + ", ".join(repr(a) for a in self.alts) + ")"
+
+
 class Twin:
     """expectation `behaves like case <other>` (differential; C04): same status and same value/error;
     `early_ok`: this (literal-constant) side may instead report the twin's... any exec error at parse time"""
@@ -274,6 +283,14 @@ def judge(case, status, text):
     exp = case.expect
     if status == "not_run":
         return None
+    if isinstance(exp, AnyOf):
+        probs = []
+        for alt in exp.alts:
+            j = judge(Case(case.id, case.prog, alt, case.vars, case.mode, case.what), status, text)
+            if j is None:
+                return None
+            probs.append(j)
+        return " and ".join(probs)
     if isinstance(exp, Err):
         if status in ("exec_error", "parse_error") and text.split("|", 1)[0] == exp.msg:
             return None
@@ -838,18 +855,20 @@ def fam_fold(tier, seed, extra=()):
         out += [c for c in binop_cases(op, pairs, tag="fold/") if "/compound/" not in c.id]
     out += binop_cases("/", grid_pairs([0.0, -0.0, 1.0, math.inf, math.nan]), kind="float", tag="fold/")
     # early errors only for operations that fail whenever evaluated
-    out.append(Case("fold/early/div", "f := (x: int) -> int { return x / 0 }; 1", Err(E_ZDIV)))
-    out.append(Case("fold/early/mod", "f := (x: int) -> int { return x % 0 }; 1", Err(E_ZMOD)))
-    out.append(Case("fold/early/shl", "f := (x: int) -> int { return x << 64 }; 1", Err(E_SHIFT)))
-    out.append(Case("fold/early/shr", "f := (x: int) -> int { return x >> (0 - 1) }; 1", Err(E_SHIFT)))
+    # an operation on constants that fails whenever evaluated MAY be reported at parse time (permitted, not
+    # required): the never-called function either makes parsing fail with that error or is simply never run
+    out.append(Case("fold/early/div", "f := (x: int) -> int { return x / 0 }; 1", AnyOf(Err(E_ZDIV), 1)))
+    out.append(Case("fold/early/mod", "f := (x: int) -> int { return x % 0 }; 1", AnyOf(Err(E_ZMOD), 1)))
+    out.append(Case("fold/early/shl", "f := (x: int) -> int { return x << 64 }; 1", AnyOf(Err(E_SHIFT), 1)))
+    out.append(Case("fold/early/shr", "f := (x: int) -> int { return x >> (0 - 1) }; 1", AnyOf(Err(E_SHIFT), 1)))
     out.append(Case("fold/noearly/fdiv", "f := (x: float) -> float { return x / 0.0 }; 1", 1))
     out.append(Case("fold/noearly/div", "f := (x: int) -> int { return 0 / x }; 1", 1))
     out.append(Case("fold/noearly/shl", "f := (x: int) -> int { return x << 63 }; 1", 1))
     out.append(Case("fold/if/const", "x := if 1 < 2 10 else 20; x", 10))
-    out.append(Case("fold/repeat/neg", "f := (x: int) -> [int] { return [x; 0 - 1] }; 1", Err(E_NEGLEN)))
+    out.append(Case("fold/repeat/neg", "f := (x: int) -> [int] { return [x; 0 - 1] }; 1", AnyOf(Err(E_NEGLEN), 1)))
     out.append(Case("fold/repeat/ok", "f := (x: int) -> [int] { return [x; 2] }; f(3)", [3, 3]))
     out += literal_index_cases()
-    out.append(Case("fold/index/early", "f := (x: int) -> int { return [x, x][2] }; 1", Err(E_INDEX)))
+    out.append(Case("fold/index/early", "f := (x: int) -> int { return [x, x][2] }; 1", AnyOf(Err(E_INDEX), 1)))
     out.append(Case("fold/index/ok", "f := (x: int) -> int { return [x, x + 1][0 - 1] }; f(1)", 2))
     return out
 
